@@ -6,6 +6,7 @@ opt-level 0 of the type-checked program).  Nothing executes the analysed code.
 import collections
 import glob
 import json
+import re
 import os
 
 
@@ -458,6 +459,11 @@ class Fn:
                         pl = st['pl']
                         if any(x['k'] == 'deref' for x in pl['p']):
                             continue
+                        if pl['p'] and 1 <= pl['l'] <= self.argc:
+                            # a field of a by-value parameter (`mut self`) is object state like a field behind
+                            # `&mut self`: a store (see `stores`), not a definition -- reads of the field always
+                            # denote "the current value of self.field", whichever way self is passed
+                            continue
                         d[pl['l']].append(('assign', st, Pos(bi, si), pl['p']))
                 t = b['term']
                 if t['k'] == 'call':
@@ -471,7 +477,9 @@ class Fn:
     def stores(self):
         """assignments through a deref: yields (Pos, place, rvalue-or-None(call dest))"""
         for pos, st in self.statements():
-            if st['k'] == 'assign' and any(x['k'] == 'deref' for x in st['pl']['p']):
+            if st['k'] == 'assign' and (any(x['k'] == 'deref' for x in st['pl']['p']) or
+                                        (st['pl']['p'] and 1 <= st['pl']['l'] <= self.argc)):
+                # (a field of a by-value parameter -- `mut self` -- is state of the object all the same)
                 yield pos, st['pl'], st['rv']
         for cs in self.calls():
             if any(x['k'] == 'deref' for x in cs.t['dest']['p']):
@@ -570,6 +578,19 @@ class Fn:
                 rest = proj
             if kind == 'call':
                 e = self.call_expr(obj, pos.bb, depth + 1, stack2)
+            elif obj['rv']['k'] == 'use' and obj['rv']['o']['k'] in ('copy', 'move') and rest:
+                # a copy of a place: carry the remaining projection to the source place
+                pl = obj['rv']['o']['pl']
+                e = self.local_expr(pl['l'], list(pl['p']) + list(rest), depth + 1, stack2)
+                cands.append((e, []))
+                continue
+            elif obj['rv']['k'] in ('ref', 'rawptr') and rest and rest[0]['k'] == 'deref':
+                # (*r).f with r = &P  is  P.f : project on the place itself, so that stores to sibling fields of P
+                # are not taken for definitions of the field read here
+                pl = obj['rv']['pl']
+                e = self.local_expr(pl['l'], list(pl['p']) + list(rest[1:]), depth + 1, stack2)
+                cands.append((e, []))
+                continue
             else:
                 e = self.rvalue_expr(obj['rv'], depth + 1, stack2)
                 if e.pos is None and e.kind not in ('const', 'param'):
@@ -703,7 +724,12 @@ class Fn:
             if s == f and s != tr:
                 return flatten_bool(e, False)
             if s == tr and s != f:
-                return flatten_bool(e, True)
+                facts = flatten_bool(e, True)
+                extra = []
+                for x, v in facts:
+                    if v is True:
+                        extra.extend(closure_predicate_facts(getattr(self, 'prog', None), x))
+                return facts + extra
             return []
         vals = self.edge_values(b).get(s, set())
         if 'otherwise' in vals:
@@ -749,6 +775,52 @@ class Fn:
         return not any(s in r for s in sink_bbs)
 
 
+def subst(e, f, memo=None):
+    """Copy of expression tree e with every node n for which f(n) is not None replaced by f(n)."""
+    if memo is None:
+        memo = {}
+    if id(e) in memo:
+        return memo[id(e)]
+    r = f(e)
+    if r is not None:
+        memo[id(e)] = r
+        return r
+    n = E(e.kind, op=e.op, info=e.info, bb=e.bb)
+    n.pos = e.pos
+    memo[id(e)] = n
+    n.a = subst(e.a, f, memo) if isinstance(e.a, E) else e.a
+    n.b = subst(e.b, f, memo) if isinstance(e.b, E) else e.b
+    n.args = [subst(x, f, memo) for x in e.args]
+    return n
+
+
+def closure_predicate_facts(prog, e):
+    """`opt.is_some_and(|x| p(x))` known to be true: opt is Some and p holds of its payload.  Returns the extra
+    facts [(expr, truth)] (empty when e is not that idiom or the closure cannot be found)."""
+    c = e.strip()
+    if prog is None or c.kind != 'call' or not c.op.endswith('is_some_and') or 'Option' not in c.op or len(c.args) != 2:
+        return []
+    agg = c.args[1].strip()
+    if agg.kind != 'agg' or agg.info.get('ak') != 'closure':
+        return []
+    cl = prog.fns.get(agg.info.get('name')) or (prog.by_name.get(agg.info.get('name')) or [None])[0]
+    if cl is None or cl.argc != 2:
+        return []
+    opt = c.args[0]
+    payload = E('proj', a=E('proj', a=opt, op='downcast', info={'n': 'Some', 'v': 1}), op='field', info={'i': 0, 'n': '0'})
+
+    def rep(n):
+        if n.kind == 'param' and n.info.get('i') == 2:
+            return payload
+        if n.kind == 'proj' and n.op == 'field' and isinstance(n.a, E):
+            base = n.a.strip()
+            if base.kind == 'param' and base.info.get('i') == 1 and n.info.get('i') is not None and n.info['i'] < len(agg.args):
+                return agg.args[n.info['i']]
+        return None
+    body = subst(cl.local_expr(0, []), rep)
+    return [(E('discr', a=opt), ('in', frozenset([1])))] + flatten_bool(body, True)
+
+
 def _proj_eq(a, b):
     if a['k'] != b['k']:
         return False
@@ -769,6 +841,13 @@ def flatten_bool(e, truth):
         return flatten_bool(s.a, False) + flatten_bool(s.b, False)
     if s.kind == 'binop' and s.op == 'BitAnd' and truth is True:
         return flatten_bool(s.a, True) + flatten_bool(s.b, True)
+    if s.kind == 'phi' and truth in (True, False):
+        # a merge of a boolean with the constant `not truth` (`match x { Some(y) => p(y), None => false }` being
+        # true): only the other alternative can have produced it
+        rest = [a for a in s.args if not (a.strip().kind == 'const' and a.strip().info.get('ty') == 'bool' and a.strip().info.get('int') is not None
+                                         and bool(int(a.strip().info['int'])) != truth)]
+        if len(rest) == 1 and len(s.args) > 1:
+            return flatten_bool(rest[0], truth)
     if s.kind == 'binop' and s.op in ('Eq', 'Ne') and s.b.kind == 'const' and s.b.info.get('ty') == 'bool':
         v = bool(s.b.info.get('int'))
         want = (v == truth) if s.op == 'Eq' else (v != truth)
@@ -784,6 +863,15 @@ def as_relation(fact):
     """Normalise a fact (E, truth) whose E is a comparison into (op, lhs, rhs) that holds; else None.
     Recognises MIR BinOp comparisons and PartialOrd/PartialEq method calls."""
     e, truth = fact[0], fact[1]
+    if isinstance(truth, tuple) and e.kind == 'discr' and e.a is not None:
+        # match NonZero::new(x) { Some(_) => .., None => .. } is a test of x against zero
+        c = e.a.strip()
+        if c.kind == 'call' and re.search(r'NonZero(<[^>]*>)?::new$', c.op) and len(c.args) == 1:
+            some = (truth[0] == 'in' and truth[1] == frozenset([1])) or (truth[0] == 'not' and truth[1] == frozenset([0]))
+            none = (truth[0] == 'in' and truth[1] == frozenset([0])) or (truth[0] == 'not' and truth[1] == frozenset([1]))
+            if some or none:
+                return Rel('Ne' if some else 'Eq', c.args[0], E('const', info={'int': 0, 'ty': 'usize'}))
+        return None
     if truth not in (True, False):
         return None
     op = None
@@ -906,6 +994,7 @@ class Program:
         self.dir = facts_dir
         self.profile = profile or os.path.basename(os.path.normpath(facts_dir))
         self.renamed = {}
+        self.renamed_fields = []
         self.inlined = []
         self.fns = {}
         self.by_name = collections.defaultdict(list)
@@ -927,14 +1016,17 @@ class Program:
         if table is not None:
             raw = [Fn(fd, d['crate']) for d in crates for fd in d['fns']]
             self.renamed = normalize.detect_renames(raw, table, self.profile)
+            self.renamed.update(normalize.detect_adt_renames(crates, table))
             if self.renamed:
                 crates = [json.loads(normalize.apply_renames(t, self.renamed)) for t in texts]
+            self.renamed_fields = normalize.rename_private_fields(crates, table)
             self.inlined = normalize.inline_new_helpers(crates, table)
         for d in crates:
             crate = d['crate']
             self.crates.append(crate)
             for fd in d['fns']:
                 fn = Fn(fd, crate)
+                fn.prog = self
                 self.fns[fn.key] = fn
                 self.by_name[fn.name].append(fn)
                 if fd.get('trait_item'):
